@@ -234,6 +234,7 @@ CONFIG = {
         "`sok n` (content.Successors succeeds for n) is a universally quantified parameter; the only failure modelled is errdef.ErrNotFound (IndexAll skips it); undecodable manifest bytes are outside the generator's universe",
         "sync.RWMutex makes index / Remove / Predecessors atomic: concurrency is modelled as an arbitrary interleaving of atomic operations; IndexAll's concurrent traversal (syncutil.Go + status.Tracker) is modelled as an LTS with two atomic actions per task (tracker commit; index + start successor tasks) and every complete schedule is proved equivalent to the sequential work-list the reload theorems use (C07_indexall_every_schedule); the two actions and their order are re-read from memory.go (callseq calls_indexAll); errgroup waiting/cancellation is not modelled",
         "concurrent OCI operations (Model/StoreLTS.v): Push = storage.Push, graph.Index, tag by digest, saveIndex; Tag = Exists, tag by digest, tag by name, saveIndex; Untag = untag, saveIndex, each step atomic (storage rename, graph lock, sync.Map store, indexLock); Delete/GC/reopen exclusive (Store.sync.Lock); the step order is re-read from oci.go (callseq calls_ociPush/TagInner/Tag/Untag); the LTS itself is not executed against the code (no scheduler control inside oci.Store): the tie is the quiescent state (burst stream vs sequential model) and the any-time oracle run inside the concurrent blocks",
+        "tag names (translate/ntrans1): the reference -> node map of resolver.Memory is kept by the model; Tag overwrites, the node that had the name loses it, Delete drops every name of the node; the harness issues the name-level step only for a Tag/Untag that succeeded (a failing Tag of absent content / Untag of an unknown name has no effect in the code and is not sent)",
         "AutoSaveIndex/SaveIndex (astep): with the flag off no operation writes index.json, SaveIndex does; a reopen of an index that was not saved is reported by the model (ok=false) and excluded by the theorem's hypothesis; the harness, like a well-behaved caller, saves before every reopen and when it switches the flag back on",
         "IndexAll/load theorems have the hypothesis `ok = true` (fuel not exhausted); C07_reload_terminates proves a sufficient fuel exists for every finite closed universe; the extracted runner uses fuel 100000 and prints FUEL otherwise",
         "OCI store level (Model/GraphStore.v): blobs, by-digest/tagged resolver entries (= root list of index.json) and graph.Memory; one descriptor key per digest (no same-bytes-two-media-types twins in a store); only manifest media types have successors; which referrers gcIndex keeps (subject walk, map order) is a universally quantified argument of the GC step; index.json is part of the state (written by every manifest Push, Tag, Untag, by a delete that untagged something and by GC; AutoSaveIndex default), a reopen reloads resolver and graph from the file as last written; whether Store.GC writes it after restoring the digest references of reachable manifests is re-read from content/oci/oci.go on every run (callseq -> Generated/GC07.calls_GC -> gc_save_after_restore); resolver tag names, saveIndex encoding and GC errors/hangs (F1/F2) are outside this model (C08/C09)",
@@ -246,7 +247,7 @@ CONFIG = {
         "callseq ties (audit F6) see the source ORDER of the watched calls only (saveIndex: Lock, deferred Unlock, Map, writeIndexFile; Store.GC: gcIndex, graph.Exists, Resolve, Tag, saveIndex, ReadDir; delete: Remove, Tag, saveIndex, storage.Delete; file Push: push, Index, restoreDuplicates); conditions such as `if s.AutoSaveIndex` are not re-read; a changed anchor hash is recorded, not fatal; the dynamic streams (burst, chain, foreign, ftitle) are the second line",
         "OCI GC that does not return (defect F1, property C09) or returns an error (index.json naming swept blobs after an earlier GC, defect F2, properties C08/C09) is not judged by C07; the harness avoids histories whose GC outcome depends on Go map order",
     ],
-    "level_text": "Coq theorems over all histories: the three invariants of graph.Memory hold after every sequence of Index/Remove/IndexAll/fresh-graph operations with content appearing and disappearing; under the invariant Predecessors(n) is exactly (NoDup, iff) the nodes in memory whose successors contain n, present or not; Remove returns exactly the nodes that lost their last predecessor, for every map iteration order; every permutation of a push list gives the same predecessor sets; the graph rebuilt by loadIndex/gcIndex holds exactly the nodes reachable from the roots and answers like the live graph when every stored manifest is a root; at the OCI store level (blobs, index roots, graph) Predecessors equals the stored referencing nodes after every Push/Tag/Delete/GC/reopen history and a reopen changes no answer (repaired gcIndex; refuted with a witness for the code before the repair); the same for every interleaving of the atomic steps of concurrent Push/Tag/Untag with exclusive Delete/GC/reopen (exact at quiescence, reopen-stable, and at every intermediate state no extra answer and nothing missing except a Push between its storage and index steps); for AutoSaveIndex=false histories whose reopens happen on a saved index; every schedule of the concurrent IndexAll equals the sequential one; whole histories terminate for sufficient fuel; for every interleaving of concurrent Push/Tag/Untag that runs to completion the index.json on disk equals the final resolver map when saveIndex snapshots under indexLock (as re-read from the source), hence reopen = live; refuted with a witness trace for the snapshot-outside-the-lock variant. The model is tied to internal/graph/memory.go by a differential run through a build-tagged hook and to the memory/OCI/file stores by end-to-end histories (push orders, concurrent pushes, Delete with and without AutoGC, Tag, GC, reopen via oci.New / NewFromFS / NewFromTar) judged by an independent oracle",
+    "level_text": "Coq theorems over all histories: the three invariants of graph.Memory hold after every sequence of Index/Remove/IndexAll/fresh-graph operations with content appearing and disappearing; under the invariant Predecessors(n) is exactly (NoDup, iff) the nodes in memory whose successors contain n, present or not; Remove returns exactly the nodes that lost their last predecessor, for every map iteration order; every permutation of a push list gives the same predecessor sets; the graph rebuilt by loadIndex/gcIndex holds exactly the nodes reachable from the roots and answers like the live graph when every stored manifest is a root; at the OCI store level (blobs, index roots, graph) Predecessors equals the stored referencing nodes after every Push/Tag/Delete/GC/reopen history and a reopen changes no answer (repaired gcIndex; refuted with a witness for the code before the repair); the same for every interleaving of the atomic steps of concurrent Push/Tag/Untag with exclusive Delete/GC/reopen (exact at quiescence, reopen-stable, and at every intermediate state no extra answer and nothing missing except a Push between its storage and index steps); for AutoSaveIndex=false histories whose reopens happen on a saved index; every schedule of the concurrent IndexAll equals the sequential one; whole histories terminate for sufficient fuel; over the full operation language with tag names the store refines the abstract specification spec_preds (answer computed from the stored set alone); for every interleaving of concurrent Push/Tag/Untag that runs to completion the index.json on disk equals the final resolver map when saveIndex snapshots under indexLock (as re-read from the source), hence reopen = live; refuted with a witness trace for the snapshot-outside-the-lock variant. The model is tied to internal/graph/memory.go by a differential run through a build-tagged hook and to the memory/OCI/file stores by end-to-end histories (push orders, concurrent pushes, Delete with and without AutoGC, Tag, GC, reopen via oci.New / NewFromFS / NewFromTar) judged by an independent oracle",
     "level_note": "content.Successors and its success predicate are parameters; the OCI store-level invariant (stored manifests = graph manifests = roots of index.json) is proved for the repaired gcIndex over all Push/Tag/Delete/GC/reopen histories and refuted for the pre-fix code; memory store only pushes (C07_push_delete_exact); file store: Push modelled as store/index/restore steps with environment-chosen outcomes (C07_file_history_exact_src); operations aborted half-way by I/O faults are out of scope (witness C07_store_delete_error_refuted); 'config, layers, blobs, manifests or subject' = C07_links_exact over the hand model of content.Successors, tied by the links stream; theorems ignore the fuel flag (an out-of-fuel GC/reopen is a no-op in the model) but C07_store_history_terminates shows sufficient fuel exists for whole histories; the concurrency LTSs (StoreLTS, IndexAllLTS, IndexLTS) are proved, not executed against the code: their tie is call-order translation + quiescent-state correspondence + the any-time oracle inside concurrent blocks; GC hangs/errors caused by F1/F2 are not judged here; undecodable manifests not modelled",
     "technique": "machine-checked proof in Coq (invariant over all operation histories, exactness, order independence, reachability characterisation of the IndexAll work-list) + model/implementation correspondence through a hook on graph.Memory + end-to-end oracle on the three stores",
     "explanation": "theorems over all histories about the executable model of graph.Memory (index, Remove with danglings, IndexAll, Predecessors); the extracted model and the real graph.Memory are run on the same random histories and every output compared; memory, OCI and file stores are driven through the public API in random push orders (sequential and concurrent) followed by Delete/Tag/GC/re-push/reopen histories, every node queried after every step and compared with the generator's inverse edge list restricted to stored parents, and with the model; a chain stream runs push tower -> Tag(root) -> GC -> reopen -> Delete(parents) -> reopen sequences (what each step leaves in index.json is all the next reopen sees); a dedicated burst stream pushes 16-32 distinct manifests sharing children from as many goroutines (optionally with concurrent Tag/Untag) into one OCI store and immediately reopens it via NewFromFS, NewFromTar and oci.New, judging every node against the blobs on disk; the index.json on disk (listed / named entries) is compared with the model's file component after every step; AutoSaveIndex off/on and SaveIndex are generated; while a concurrent block runs a reader checks every Predecessors answer (no extras/duplicates, earlier content and completed pushes present); sha512/sha384-addressed nodes go through NewFromTar (long names); every case runs under a watchdog (a wedge becomes an oracle failure after confirmation in a fresh process); a sample of the correspondence cases is re-evaluated inside Coq with vm_compute (post_model hook)",
